@@ -1,4 +1,5 @@
 """CVC bit-precise: symbolic executor / VC generator over clang's typed JSON AST of the real /repo/src/*.c
 (DESIGN.md 2.4).  See NOTES.md in this directory for the supported subset and the assumptions."""
 
-DEFAULT_SRC = '/repo/src'
+import os
+DEFAULT_SRC = os.environ.get("VERIF_REPO_SRC") or os.path.join(os.environ.get("VERIF_REPO", "/repo"), "src")
